@@ -5,8 +5,11 @@ from ..index import AnalysisError, dotted
 from ..astutil import text, short, endswith, calls_in, walk_no_nested, names_loaded
 from ..dataflow import DefUse
 from .. import events as E
-from ._h_A import (FactReach, nodes_of_stmts, nodes_for, kwarg, is_const, stmts_in, attr_sites)
-from .c06 import Scan, STEP, LOOP, ONE
+from ._h_A import (FactReach, Facts, nodes_of_stmts, nodes_for, kwarg, is_const, stmts_in,
+                   attr_sites, obj_sites, inliner, expander, bind_call, call_arg, real_loops,
+                   Owners, followed, returns_of, value_at, deref_at, reaching_defs, innermost_loop,
+                   loop_breaks)
+from .c06 import Scan, LoopRoles, work_item, STEP, LOOP, ONE
 
 EXPLANATION = (
   "Narrow claim: the lock bookkeeping that turns 'cell A is waiting for something that needs A' "
@@ -19,10 +22,14 @@ EXPLANATION = (
   "raises CircularRefError before any user code runs, inside the guarded region that turns "
   "exceptions into the cell's value. R3: BaseColumn.get_cell_value re-raises a stored "
   "CircularRefError unwrapped, so cells further along the cycle hold CircularRefError, not "
-  "CellError. Not decided: termination (the scheduler's progress argument), and the exact set of "
-  "cells reported.")
+  "CellError. R4: _use_node records the dependency edge of a read before the read can be aborted "
+  "(the nested _recompute raising OrderError): the cell the cycle detector refuses to evaluate is "
+  "never retried, so an edge recorded only after the read would be missing for it and the cell "
+  "would keep its CircularRefError after the cycle is broken elsewhere. Not decided: termination "
+  "(the scheduler's progress argument), and the exact set of cells reported.")
 
 LOCKS = "_locked_cells"
+SLOCKS = "self._locked_cells"
 
 
 def check(run, repo, tier):
@@ -31,85 +38,70 @@ def check(run, repo, tier):
   r1_lock_pairing(run, w, sc)
   r2_cycle_flag(run, w, sc)
   r3_unwrapped(run, w)
+  r4_edge_before_read(run, w)
 
 
 # ------------------------------------------------------------------------------------------
-def _loop_roles(w):
-  fn = w.fn(LOOP)
-  cfg = fn.xcfg
-  p_items = fn.fi.params()[1]
-  pops = [n for n in cfg.nodes if n.kind == "stmt" and isinstance(n.stmt, ast.Assign) and
-          isinstance(n.stmt.value, ast.Call) and isinstance(n.stmt.value.func, ast.Attribute) and
-          n.stmt.value.func.attr in ("pop", "popleft") and
-          text(n.stmt.value.func.value) == p_items]
-  if len(pops) != 1 or not isinstance(pops[0].stmt.targets[0], ast.Tuple) or \
-      len(pops[0].stmt.targets[0].elts) != 3:
-    raise AnalysisError("%s: `node, row_ids, locks = work_items.pop()` not found" % LOOP)
-  pop = pops[0]
-  v_node, v_rows, v_locks = [text(e) for e in pop.stmt.targets[0].elts]
-  steps = [(n, c) for (n, c, nm) in fn.calls(cfg) if nm == "self._recompute_step"]
-  if len(steps) != 1:
-    raise AnalysisError("%s: expected one _recompute_step call" % LOOP)
-  sn, scall = steps[0]
-  tries = [s for s in stmts_in(fn.node.body, ast.Try) if any(sn.stmt is x for x in s.body)]
-  if len(tries) != 1:
-    raise AnalysisError("%s: _recompute_step call is not directly inside one try" % LOOP)
-  hs = [h for h in tries[0].handlers if h.type is not None and dotted(h.type) == "OrderError"
-        and h.name]
-  if len(hs) != 1:
-    raise AnalysisError("%s: `except OrderError as e` handler not found" % LOOP)
-  return fn, cfg, p_items, pop, (v_node, v_rows, v_locks), sn, tries[0], hs[0]
+def _empty_seq(e):
+  if isinstance(e, (ast.List, ast.Tuple)) and not e.elts:
+    return True
+  return isinstance(e, ast.Call) and dotted(e.func) in ("list", "tuple") and not e.args and \
+      not e.keywords
 
 
 def r1_lock_pairing(run, w, sc):
   R1 = run.rule("C18-R1", "every lock added names the requiring cell and rides in the locks of the "
                 "dependency's work item; an interrupted item keeps its locks; locks are released "
                 "after every work item; each frame starts unlocked; single owner", floor=13)
-  fn, cfg, p_items, pop, (v_node, v_rows, v_locks), sn, tr, h = _loop_roles(w)
-  ev = h.name
-  hn = {n.id for n in cfg.nodes if n.kind == "handler" and n.stmt is h}
-  hbody = nodes_of_stmts(cfg, h.body)
+  inl = inliner(w)
+  own = Owners(w)
+  lr = LoopRoles(w)
+  fn, cfg, ex = lr.fn, lr.cfg, lr.ex
+  ev, hn, hbody, h = lr.ev, lr.hn, lr.hbody, lr.h
+  v_node, v_rows, v_locks = lr.v_node, lr.v_rows, lr.v_locks
   du = DefUse(fn, cfg)
   # ---- (a) adds
   adds = [(n, c) for (n, c, nm) in fn.calls(cfg)
-          if endswith(nm, "self.%s.add" % LOCKS)]
+          if isinstance(c.func, ast.Attribute) and c.func.attr == "add" and
+          ex.norm(c.func.value) == SLOCKS]
   if not adds:
     raise AnalysisError("%s: no self._locked_cells.add(...)" % LOOP)
-  deps = [(n, c) for (n, c, nm) in fn.calls(cfg) if n.id in hbody and
-          isinstance(c.func, ast.Attribute) and c.func.attr == "append" and
-          text(c.func.value) == p_items and len(c.args) == 1 and
-          isinstance(c.args[0], ast.Call) and dotted(c.args[0].func) == "WorkItem" and
-          len(c.args[0].args) == 3 and text(c.args[0].args[0]) == "%s.node" % ev]
-  curs = [(n, c) for (n, c, nm) in fn.calls(cfg) if n.id in hbody and
-          isinstance(c.func, ast.Attribute) and c.func.attr == "append" and
-          text(c.func.value) == p_items and len(c.args) == 1 and
-          isinstance(c.args[0], ast.Call) and dotted(c.args[0].func) == "WorkItem" and
-          len(c.args[0].args) == 3 and text(c.args[0].args[0]) == v_node]
+  pushes = lr.pushes()
+  deps = [(n, c, wi) for (n, c, wi) in pushes if wi is not None and
+          ex.norm(wi["node"]) == "%s.node" % ev]
+  curs = [(n, c, wi) for (n, c, wi) in pushes if wi is not None and lr.is_var(wi["node"], v_node)]
   if len(deps) != 1 or len(curs) != 1:
     raise AnalysisError("%s: handler's two pushes (interrupted item, dependency) not recognised"
                         % LOOP)
-  (dn, dc), (cn, cc) = deps[0], curs[0]
+  (dn, dc, dwi), (cn, cc, cwi) = deps[0], curs[0]
+  def lock_value(e, nid):
+    """normalised text of a lock expression evaluated at node nid"""
+    return text(value_at(fn, cfg, du, nid, e))
   for (an, ac) in adds:
-    a = ac.args[0] if len(ac.args) == 1 else None
+    a = ac.args[0] if len(ac.args) == 1 and not ac.keywords else None
     in_h = an.id in hbody
-    run.ob(R1, fn.qualname, short(ac), "locks are taken only when an OrderError re-orders work",
-           in_h and isinstance(a, ast.Name), fi=fn.fi, node=ac, nontrivial=False)
-    if not (in_h and isinstance(a, ast.Name)):
+    run.ob(R1, fn.qualname, "self._locked_cells.add(<lock>)", "locks are taken only when an "
+           "OrderError re-orders work", in_h and a is not None, fi=fn.fi, node=ac, nontrivial=False)
+    if not (in_h and a is not None):
       continue
-    lk = a.id
-    third = dc.args[0].args[2]
-    ok = isinstance(third, ast.List) and any(isinstance(e, ast.Name) and e.id == lk
-                                             for e in third.elts)
-    # same value: the lock variable is not rebound between the push and the add
-    reb = du.rebinders(lk)
-    lo, hi = (dn.id, an.id) if an.id in cfg.reach_after({dn.id}, removed=hn) else (an.id, dn.id)
-    between = cfg.reach_after({lo}, removed={hi} | hn) & cfg.reach({hi}, removed={lo} | hn,
-                                                                forward=False)
-    ok = ok and not (between & reb)
-    run.ob(R1, fn.qualname, "%s  <->  %s" % (short(ac, 50), short(dc, 60)),
+    lv_ = lock_value(a, an.id)
+    third = ex.expand(dwi["locks"])
+    # the raw third field, element by element, evaluated where the push happens
+    raw3, _ = deref_at(fn, cfg, du, dn.id, dwi["locks"])
+    elems = [lock_value(e, dn.id) for e in raw3.elts] if isinstance(raw3, (ast.List, ast.Tuple)) \
+        else None
+    ok = elems is not None and lv_ in elems
+    if ok and isinstance(a, ast.Name):
+      # same value: the lock variable is not rebound between the push and the add
+      reb = du.rebinders(a.id)
+      lo, hi = (dn.id, an.id) if an.id in cfg.reach_after({dn.id}, removed=hn) else (an.id, dn.id)
+      between = cfg.reach_after({lo}, removed={hi} | hn) & cfg.reach({hi}, removed={lo} | hn,
+                                                                  forward=False)
+      ok = not (between & reb)
+    run.ob(R1, fn.qualname, "self._locked_cells.add(<lock>)  <->  WorkItem(e.node, [e.row_id], [<lock>])",
            "the lock put into the set is the one the dependency's work item will release", ok,
            fi=fn.fi, node=dc,
-           witness=None if ok else "lock %s is not in the locks of the pushed dependency item" % lk)
+           witness=None if ok else "lock `%s` is not in the locks of the pushed dependency item" % lv_)
     # both happen on every normal path through the handler
     exits = {m for m in cfg.reach_after(hn) if m not in hbody and m not in hn
              and m != cfg.raise_exit.id}
@@ -119,74 +111,80 @@ def r1_lock_pairing(run, w, sc):
            "no lock without an item that will release it, no re-ordering without a lock", ok,
            fi=fn.fi, node=h)
     # identity of the lock: (popped node, e.requiring_row_id)
-    defs = E.local_defs(fn.node, lk)
-    hdefs = [d for d in defs if any(d is x for s in h.body for x in ast.walk(s))]
-    ok = len(hdefs) == 1 and isinstance(hdefs[0], ast.Tuple) and len(hdefs[0].elts) == 2 and \
-        text(hdefs[0].elts[0]) in (v_node, "%s.requiring_node" % ev) and \
-        text(hdefs[0].elts[1]) == "%s.requiring_row_id" % ev
-    run.ob(R1, fn.qualname, "%s = %s" % (lk, short(hdefs[0]) if hdefs else "?"),
+    lk = value_at(fn, cfg, du, an.id, a)
+    n_node = ex.norm(ast.Name(id=v_node, ctx=ast.Load()))
+    ok = isinstance(lk, ast.Tuple) and len(lk.elts) == 2 and \
+        text(lk.elts[0]) in (n_node, "%s.requiring_node" % ev) and \
+        text(lk.elts[1]) == "%s.requiring_row_id" % ev
+    run.ob(R1, fn.qualname, "<lock> = (<node>, e.requiring_row_id)",
            "the locked cell is the interrupted (requiring) cell: meeting it again while its "
-           "dependency is being computed is exactly a cycle", ok, fi=fn.fi, node=h)
+           "dependency is being computed is exactly a cycle", ok, fi=fn.fi, node=h,
+           witness=None if ok else "the lock is `%s`" % short(lk))
   # ---- (b) interrupted item keeps its locks
-  wi = cc.args[0]
   clears = {n.id for n in cfg.nodes if n.id in hbody and n.kind == "stmt" and
-            isinstance(n.stmt, ast.Assign) and text(n.stmt.targets[0]) == v_locks and
-            isinstance(n.stmt.value, ast.List) and not n.stmt.value.elts}
-  rel_loops = [s for s in stmts_in(fn.node.body, ast.For)
-               if isinstance(s.iter, ast.Name) and s.iter.id == v_locks]
+            isinstance(n.stmt, ast.Assign) and len(n.stmt.targets) == 1 and
+            text(n.stmt.targets[0]) == v_locks and _empty_seq(ex.expand(n.stmt.value))}
+  rel_loops = [s for s in real_loops(fn.node.body, ast.For)
+               if lr.is_var(s.iter, v_locks) and isinstance(s.target, ast.Name)]
   if len(rel_loops) != 1:
     raise AnalysisError("%s: release loop `for lock in locks` not found" % LOOP)
   rl = rel_loops[0]
   rl_nodes = nodes_for(cfg, rl)
-  ok = text(wi.args[2]) == v_locks and bool(clears) and \
+  ok = lr.is_var(cwi["locks"], v_locks) and bool(clears) and \
       not (cfg.reach(set(hn), removed=clears) & rl_nodes) and \
       all(cfg.dominated_by(c, {cn.id}) for c in clears)
-  run.ob(R1, fn.qualname, "%s; %s = []" % (short(cc, 60), v_locks),
+  run.ob(R1, fn.qualname, "work_items.append(WorkItem(<node>, <rows>, <locks>)); <locks> = []",
          "an interrupted item is re-pushed with its locks and does not release them now: they stay "
          "locked until the item really completes", ok, fi=fn.fi, node=cc,
          witness=None if ok else "a path from the handler reaches the release loop with the "
          "interrupted item's locks still in `%s`" % v_locks)
   # ---- (c) release after every work item
-  inner = [s for s in stmts_in(fn.node.body, ast.While) if any(x is tr for x in s.body)]
-  if len(inner) != 1:
-    raise AnalysisError("%s: inner `while work_items` loop not found" % LOOP)
-  wh = nodes_for(cfg, inner[0])
-  ok = not (cfg.reach_after({sn.id}, removed=rl_nodes, completed=True) & wh)
-  run.ob(R1, fn.qualname, "for %s in %s: ... after every completed work item"
-         % (text(rl.target), v_locks),
+  inner = innermost_loop(fn.node, lr.pop.stmt)
+  if inner is None:
+    raise AnalysisError("%s: the loop taking work items was not found" % LOOP)
+  wh = nodes_for(cfg, inner)
+  ok = not (cfg.reach_after({lr.sn.id}, removed=rl_nodes, completed=True) & wh)
+  run.ob(R1, fn.qualname, "for <lock> in <locks>: ... after every completed work item",
          "no work item completes without its locks being examined for release", ok, fi=fn.fi,
          node=rl, witness=None if ok else "after _recompute_step returns normally the loop can go "
          "on to the next item without releasing")
-  lv = rl.target.id if isinstance(rl.target, ast.Name) else None
+  lv = rl.target.id
   rb = nodes_of_stmts(cfg, rl.body)
   rels = {n.id for (n, c, nm) in fn.calls(cfg) if n.id in rb and
-          endswith(nm, "self.%s.discard" % LOCKS, "self.%s.remove" % LOCKS) and
-          len(c.args) == 1 and text(c.args[0]) == lv}
-  # the only way round the release is the `already unlocked` shortcut
-  skips = [s for s in stmts_in(rl.body, ast.Continue)]
-  ok_skips = True
-  for s in skips:
-    par = [x for x in stmts_in(rl.body, ast.If) if any(y is s for y in x.body)]
-    ok_skips = ok_skips and len(par) == 1 and \
-        text(par[0].test) == "%s not in self.%s" % (lv, LOCKS)
-  heads = rl_nodes
-  first = {m for hd in heads for m in cfg.normal_succ(hd) if m in rb}
-  conts = {n.id for n in cfg.nodes if n.id in rb and n.kind == "continue"}
-  ok = bool(rels) and ok_skips and not (cfg.reach(first, removed=rels | conts) & heads)
-  run.ob(R1, fn.qualname, "self.%s.discard(%s) for every lock still held" % (LOCKS, lv),
+          isinstance(c.func, ast.Attribute) and c.func.attr in ("discard", "remove") and
+          ex.norm(c.func.value) == SLOCKS and len(c.args) == 1 and text(c.args[0]) == lv}
+  # the only way round the release is the `already unlocked` shortcut (any spelling of the guard)
+  held = "%s in %s" % (lv, SLOCKS)
+  first = {m for hd in rl_nodes for m in cfg.normal_succ(hd) if m in rb}
+  fr = Facts(cfg, {held}, ex=ex)
+  seen = fr.run([(m, {}) for m in first], stop=rels | rl_nodes)
+  bad = [f for hd in rl_nodes for f in seen.get(hd, []) if f.get(held) is not False]
+  ok = bool(rels) and not bad and not loop_breaks(rl)
+  run.ob(R1, fn.qualname, "self.%s.discard(<lock>) for every lock still held" % LOCKS,
          "a completed work item's locks leave the set (a lock left behind would report later, "
          "innocent readers of the cell as circular)", ok, fi=fn.fi, node=rl)
   # ---- (d) each frame starts unlocked
-  pre = w.fn("engine.Engine._pre_update")
+  pre = inl.fn("engine.Engine._pre_update")
+  pex = expander(pre)
   pcfg = pre.cfg
   resets = set()
   for n in pcfg.nodes:
-    if n.kind == "stmt" and isinstance(n.stmt, ast.Assign) and \
-        text(n.stmt.targets[0]) == "self.%s" % LOCKS and \
-        ((isinstance(n.stmt.value, ast.Call) and dotted(n.stmt.value.func) == "set" and
-          not n.stmt.value.args) or
-         (isinstance(n.stmt.value, ast.Set) and not n.stmt.value.elts)):
-      resets.add(n.id)
+    if n.kind == "stmt" and isinstance(n.stmt, ast.Assign):
+      tgs, vals = [], []
+      for t in n.stmt.targets:
+        if isinstance(t, (ast.Tuple, ast.List)) and isinstance(n.stmt.value, (ast.Tuple, ast.List)) \
+            and len(t.elts) == len(n.stmt.value.elts):
+          tgs += t.elts
+          vals += n.stmt.value.elts
+        else:
+          tgs.append(t)
+          vals.append(n.stmt.value)
+      for t, v in zip(tgs, vals):
+        v = pex.expand(v)
+        if text(t) == SLOCKS and \
+            ((isinstance(v, ast.Call) and dotted(v.func) in ("set", "frozenset") and
+              not v.args) or (isinstance(v, ast.Set) and not v.elts)):
+          resets.add(n.id)
     for c in calls_in(n.exprs):
       if endswith(pre.name(c), "self.%s.clear" % LOCKS):
         resets.add(n.id)
@@ -196,11 +194,13 @@ def r1_lock_pairing(run, w, sc):
   # ---- (e) ownership
   allowed = {
     ("engine.Engine.__init__", "rebind"), ("engine.Engine._pre_update", "rebind"),
-    (LOOP, "add"), (LOOP, "discard"), (LOOP, "read"),
+    ("engine.Engine._pre_update", "clear"),
+    (LOOP, "add"), (LOOP, "discard"), (LOOP, "remove"), (LOOP, "read"),
     (STEP, "discard"), (STEP, "read"),
   }
+  named = {q for (q, k) in allowed}
   for fi in w.repo.all_functions():
-    for site in attr_sites(fi, LOCKS):
+    for site in obj_sites(fi, LOCKS):
       kind = site[0]
       if kind == "call":
         what = site[1]
@@ -211,9 +211,13 @@ def r1_lock_pairing(run, w, sc):
       if kind == "escape":
         raise AnalysisError("%s: _locked_cells escapes (`%s`); ownership cannot be decided"
                             % (fi.qualname, short(node)))
+      owners = own.of(fi, named)
+      ok = all((q, what) in allowed for q in owners)
+      if ok and what != "read":
+        followed(inl, fi, owners)
       run.ob(R1, fi.qualname, "%s of %s" % (what, LOCKS), "the lock set is written only by the "
              "scheduler, the evaluation step (unlock on success) and the frame reset",
-             (fi.qualname, what) in allowed, fi=fi, node=node, nontrivial=False)
+             ok, fi=fi, node=node, nontrivial=False)
 
 
 # ------------------------------------------------------------------------------------------
@@ -222,58 +226,75 @@ def r2_cycle_flag(run, w, sc):
                 "_recompute_one_cell, and makes it raise CircularRefError before any user code, "
                 "inside the region that turns exceptions into the cell's value", floor=7)
   fn = sc.fn
+  ex = sc.ex
   ev = sc.eval
-  cy = kwarg(ev, "cycle", 3)
-  run.ob(R2, fn.qualname, short(ev, 90), "the evaluation is told whether the cell is locked",
-         cy is not None, fi=fn.fi, node=ev, nontrivial=False)
-  if cy is not None:
-    val = cy
+  onef = w.repo.func(ONE)
+  if "cycle" not in onef.params():
+    raise AnalysisError("%s: parameter `cycle` vanished" % ONE)
+  m = bind_call(ev, onef) or {}
+  cy = m.get("cycle")
+  explicit = cy is not None and any(cy is x for x in list(ev.args) + [k.value for k in ev.keywords])
+  run.ob(R2, fn.qualname, "self._recompute_one_cell(..., cycle=<flag>)", "the evaluation is told "
+         "whether the cell is locked", explicit, fi=fn.fi, node=ev, nontrivial=False)
+  if explicit:
+    cfg = fn.cfg
+    du = DefUse(fn, cfg)
+    en = sc.eval_nodes(cfg)
+    head = sc.head(cfg)
+    if len(en) != 1:
+      raise AnalysisError("%s: the evaluation call has %d CFG nodes" % (STEP, len(en)))
+    e0 = next(iter(en))
+    val, at = deref_at(fn, cfg, du, e0, cy)
     if isinstance(cy, ast.Name):
-      ds = E.local_defs(fn.node, cy.id)
-      if len(ds) != 1:
-        raise AnalysisError("%s: `%s` has %d definitions" % (STEP, cy.id, len(ds)))
-      val = ds[0]
+      if isinstance(val, ast.Name):
+        raise AnalysisError("%s: `%s` has no single definition reaching the evaluation"
+                            % (STEP, cy.id))
       # defined in the same iteration, before the call
-      cfg = fn.cfg
-      dn = {n.id for n in cfg.nodes if n.kind == "stmt" and isinstance(n.stmt, ast.Assign) and
-            n.stmt.value is val}
-      en = sc.eval_nodes(cfg)
-      head = sc.head(cfg)
+      dn = {at}
       ok = all(e in cfg.reach_after(dn, removed={head}) for e in en) and \
           all(cfg.dominated_by(e, dn) for e in en)
-      run.ob(R2, fn.qualname, "%s = ... before %s" % (cy.id, short(ev, 40)),
+      run.ob(R2, fn.qualname, "<flag> = ... before self._recompute_one_cell(...)",
              "the flag handed over is the one computed for this row", ok, fi=fn.fi, node=ev)
     conj = val.values if isinstance(val, ast.BoolOp) and isinstance(val.op, ast.And) else [val]
     member = [c for c in conj if isinstance(c, ast.Compare) and len(c.ops) == 1 and
-              isinstance(c.ops[0], ast.In) and text(c.comparators[0]) == "self.%s" % LOCKS]
+              isinstance(c.ops[0], ast.In) and ex.norm(c.comparators[0]) == SLOCKS]
     others = [c for c in conj if c not in member]
     if len(member) != 1 or any(not isinstance(o, ast.Name) for o in others):
       raise AnalysisError("%s: cycle flag `%s` is not a recognised shape" % (STEP, short(val)))
-    m = member[0].left
-    ok = isinstance(m, ast.Tuple) and len(m.elts) == 2 and text(m.elts[0]) == sc.p_node and \
-        text(m.elts[1]) == sc.row
-    run.ob(R2, fn.qualname, short(member[0]), "the membership test uses the same (node, row) key "
-           "shape the scheduler locks with", ok, fi=fn.fi, node=val)
-    ok = [o.id for o in others] == [sc.flag]
-    run.ob(R2, fn.qualname, short(val), "only a row the scheduler asked for can be a cycle: a "
+    mm = ex.expand(member[0].left)
+    ok = isinstance(mm, ast.Tuple) and len(mm.elts) == 2 and text(mm.elts[0]) == sc.p_node and \
+        text(mm.elts[1]) == sc.row
+    run.ob(R2, fn.qualname, "(<node>, <row>) in self._locked_cells", "the membership test uses the "
+           "same (node, row) key shape the scheduler locks with", ok, fi=fn.fi, node=val)
+    def is_flag(o):
+      if o.id == sc.flag:
+        return True
+      v = ex.value(o.id)
+      return isinstance(v, ast.Name) and v.id == sc.flag
+    ok = len(others) == 1 and is_flag(others[0])
+    run.ob(R2, fn.qualname, "<required> and (<node>, <row>) in self._locked_cells", "only a row the "
+           "scheduler asked for can be a cycle: a "
            "locked cell met opportunistically is merely waiting for its dependency", ok,
            fi=fn.fi, node=val)
   # ---- _recompute_one_cell
-  one = w.fn(ONE)
+  one = inliner(w).fn(ONE)
+  oex = expander(one)
   cfg = one.xcfg
-  if "cycle" not in one.fi.params():
-    raise AnalysisError("%s: parameter `cycle` vanished" % ONE)
   methods = one.nodes_calling(lambda c, nm, f: isinstance(c.func, ast.Attribute) and
                               c.func.attr == "method", cfg)
   if not methods:
     raise AnalysisError("%s: user-code call (col.method) not found" % ONE)
-  fr = FactReach(cfg, {"cycle"})
+  fr = Facts(cfg, {"cycle"}, ex=oex)
   seen = fr.run([(cfg.entry.id, {"cycle": True})])
   hit = sorted(set(seen) & methods)
+  def raised_type(n):
+    x = cfg.nodes[n].stmt.exc
+    if x is None:
+      return None
+    x = oex.expand(x)
+    return dotted(x.func) if isinstance(x, ast.Call) else dotted(x)
   circ = [n for n in seen if cfg.nodes[n].kind == "raise_stmt" and
-          cfg.nodes[n].stmt.exc is not None and
-          endswith(dotted(cfg.nodes[n].stmt.exc.func) if isinstance(cfg.nodes[n].stmt.exc, ast.Call)
-                   else dotted(cfg.nodes[n].stmt.exc), "CircularRefError")]
+          endswith(raised_type(n), "CircularRefError")]
   ok = not hit and bool(circ)
   run.ob(R2, one.qualname, "if cycle: raise depend.CircularRefError(...) before col.method(...)",
          "a cell on a cycle is never evaluated (its formula would read itself); it fails with "
@@ -294,15 +315,24 @@ def r2_cycle_flag(run, w, sc):
            "the circular-reference error becomes the cell's value, not an engine failure",
            n in tb, fi=one.fi, node=cfg.nodes[n].stmt)
   h = [x for x in tr.handlers if x.type is None][0]
-  rets = [s for s in stmts_in(h.body, ast.Return)]
+  hb = nodes_of_stmts(cfg, h.body)
   du = DefUse(one, cfg)
-  for r in rets:
-    v = r.value
-    ok = isinstance(v, ast.Call) and endswith(dotted(v.func), "RaisedException") and v.args and \
+  n_rets = 0
+  for (n, r, v) in returns_of(one, cfg):
+    if n.id not in hb or v is None:
+      continue
+    n_rets += 1
+    raw, at = deref_at(one, cfg, du, n.id, r.value)
+    ok = isinstance(raw, ast.Call) and endswith(dotted(raw.func), "RaisedException") and \
+        bool(raw.args) and \
         du.flows_from(lambda x: isinstance(x, ast.Call) and dotted(x.func) == "sys.exc_info",
-                      v.args[0])
-    run.ob(R2, one.qualname, short(r, 90), "the value stored for a failed cell wraps the exception "
-           "that was actually raised (here: the CircularRefError)", ok, fi=one.fi, node=r)
+                      raw.args[0])
+    run.ob(R2, one.qualname, "except: ... return objtypes.RaisedException(<the caught error>, ...)",
+           "the value stored for a failed cell wraps the exception "
+           "that was actually raised (here: the CircularRefError)", ok, fi=one.fi, node=r,
+           witness=None if ok else "returns `%s`" % short(raw))
+  if not n_rets:
+    raise AnalysisError("%s: the error branch returns nothing" % ONE)
 
 
 # ------------------------------------------------------------------------------------------
@@ -314,46 +344,56 @@ NO_STORED_ERRORS = {
 def r3_unwrapped(run, w):
   R3 = run.rule("C18-R3", "get_cell_value re-raises a stored CircularRefError itself, before the "
                 "generic CellError wrapping", floor=4)
-  fn = w.fn("column.BaseColumn.get_cell_value")
+  fn = inliner(w).fn("column.BaseColumn.get_cell_value")
+  ex = expander(fn)
   cfg = fn.cfg
-  wraps = [n for n in cfg.nodes if n.kind == "raise_stmt" and isinstance(n.stmt.exc, ast.Call) and
-           endswith(dotted(n.stmt.exc.func), "CellError")]
+  du = DefUse(fn, cfg)
+  def exc_of(n):
+    x = n.stmt.exc
+    return ex.expand(x) if x is not None else None
+  wraps = [n for n in cfg.nodes if n.kind == "raise_stmt" and isinstance(exc_of(n), ast.Call) and
+           endswith(dotted(exc_of(n).func), "CellError")]
   if not wraps:
     raise AnalysisError("get_cell_value: the CellError wrapping raise was not found")
-  tests = []
+  atoms = {}
   for n in cfg.nodes:
-    if n.kind != "if":
+    if n.kind not in ("if", "while"):
       continue
-    t = n.stmt.test
-    if isinstance(t, ast.Call) and dotted(t.func) == "isinstance" and len(t.args) == 2 and \
-        endswith(dotted(t.args[1]), "CircularRefError"):
-      tests.append(n)
-  ok_shape = len(tests) == 1
+    for t in ast.walk(ex.expand(n.stmt.test)):
+      if isinstance(t, ast.Call) and dotted(t.func) == "isinstance" and len(t.args) == 2 and \
+          endswith(dotted(t.args[1]), "CircularRefError"):
+        atoms[text(t)] = t.args[0]
+  ok_shape = len(atoms) == 1
   run.ob(R3, fn.qualname, "isinstance(<stored>.error, depend.CircularRefError) branch exists",
          "stored circular-reference errors are told apart from other stored errors", ok_shape,
          fi=fn.fi, nontrivial=False)
   if ok_shape:
-    t = tests[0]
-    subj = t.stmt.test.args[0]
-    b0 = t.stmt.body[0] if t.stmt.body else None
-    ok = isinstance(b0, ast.Raise) and b0.exc is not None and text(b0.exc) == text(subj) and \
-        isinstance(subj, ast.Attribute) and subj.attr == "error"
-    run.ob(R3, fn.qualname, "if %s: raise %s" % (short(t.stmt.test), text(subj)),
+    (atom, subj), = atoms.items()
+    fr = Facts(cfg, {atom}, ex=ex)
+    seen = fr.run([(cfg.entry.id, {})])
+    rer = [n for n in cfg.nodes if n.kind == "raise_stmt" and exc_of(n) is not None and
+           text(exc_of(n)) == text(subj) and n.id in seen and
+           all(f.get(atom) is True for f in seen[n.id])]
+    ok = bool(rer) and isinstance(subj, ast.Attribute) and subj.attr == "error"
+    run.ob(R3, fn.qualname, "if isinstance(<raw>.error, CircularRefError): raise <raw>.error",
            "the original CircularRefError object is re-raised, so the reading cell's value is a "
-           "CircularRefError too", ok, fi=fn.fi, node=t.stmt)
+           "CircularRefError too", ok, fi=fn.fi)
     for wn in wraps:
-      ok = cfg.dominated_by(wn.id, {t.id}) and \
-          not any(wn.stmt is x for s in t.stmt.body for x in ast.walk(s))
-      run.ob(R3, fn.qualname, short(wn.stmt, 80), "the generic wrapping is reached only after the "
-             "circular-reference test failed", ok, fi=fn.fi, node=wn.stmt)
+      ok = wn.id not in seen or all(f.get(atom) is False for f in seen[wn.id])
+      run.ob(R3, fn.qualname, "raise objtypes.CellError(..., <raw>.error)", "the generic wrapping "
+             "is reached only after the circular-reference test failed", ok, fi=fn.fi,
+             node=wn.stmt)
     # the stored value examined is this cell's raw value
     base = subj.value if isinstance(subj, ast.Attribute) else None
-    ds = E.local_defs(fn.node, base.id) if isinstance(base, ast.Name) else []
+    ds = []
+    if isinstance(base, ast.Name):
+      ds = [ex.expand(d) for d in E.local_defs(fn.node, base.id)]
+    elif base is not None:
+      ds = [base]
     ok = any(isinstance(d, ast.Call) and isinstance(d.func, ast.Attribute) and
-             d.func.attr == "raw_get" and len(d.args) == 1 and
-             text(d.args[0]) == fn.fi.params()[1] for d in ds)
-    run.ob(R3, fn.qualname, "%s = self.raw_get(%s)" % (text(base) if base is not None else "?",
-                                                     fn.fi.params()[1]),
+             d.func.attr == "raw_get" and len(d.args) + len(d.keywords) == 1 and
+             text((d.args + [k.value for k in d.keywords])[0]) == fn.fi.params()[1] for d in ds)
+    run.ob(R3, fn.qualname, "<raw> = self.raw_get(<row>)",
            "the error examined is the one stored in the cell being read", ok, fi=fn.fi)
   # overrides
   base_ci = w.repo.cls("column.BaseColumn")
@@ -362,6 +402,54 @@ def r3_unwrapped(run, w):
       run.ob(R3, ci.qualname, "override of get_cell_value", "a column class that overrides the "
              "accessor stores no error values", ci.qualname in NO_STORED_ERRORS,
              fi=ci.methods["get_cell_value"], nontrivial=False)
+
+
+# ------------------------------------------------------------------------------------------
+def r4_edge_before_read(run, w):
+  R4 = run.rule("C18-R4", "_use_node records the dependency edge (current node -> node read) "
+                "before the nested _recompute that may abort the read", floor=2)
+  fn = inliner(w).fn("engine.Engine._use_node")
+  ex = expander(fn)
+  cfg = fn.cfg
+  ps = fn.fi.params()
+  rec = fn.nodes_calling(lambda c, nm, f: nm == "self._recompute")
+  if not rec:
+    raise AnalysisError("_use_node: self._recompute call not found")
+  adds = set()
+  edge_ok = False
+  for (n, c, nm) in fn.calls():
+    if endswith(nm, "dep_graph.add_edge"):
+      adds.add(n.id)
+      args = [ex.expand(a.value if isinstance(a, ast.Starred) else a) for a in c.args]
+      parts = []
+      for a in args:
+        parts += a.elts if isinstance(a, ast.Tuple) else [a]
+      edge_ok = len(parts) == 3 and text(parts[0]) == "self._current_node" and \
+          text(parts[1]) == ps[1] and text(parts[2]) == ps[2]
+  if not adds:
+    raise AnalysisError("_use_node: dep_graph.add_edge call not found")
+  run.ob(R4, fn.qualname, "self.dep_graph.add_edge(self._current_node, node, relation)",
+         "the edge recorded says: the cell being computed depends on the node being read",
+         edge_ok, fi=fn.fi, nontrivial=False)
+  # known-recorded edges need not be added again: `<edge> in self._recompute_edge_set`
+  known = set()
+  for n in cfg.nodes:
+    if n.kind == "if":
+      for t in ast.walk(ex.expand(n.stmt.test)):
+        if isinstance(t, ast.Compare) and len(t.ops) == 1 and \
+            isinstance(t.ops[0], (ast.In, ast.NotIn)) and \
+            endswith(dotted(t.comparators[0]), "self._recompute_edge_set"):
+          known.add("%s in %s" % (text(t.left), text(t.comparators[0])))
+  isf = "self._is_current_node_formula"
+  fr = Facts(cfg, known | {isf}, ex=ex)
+  seen = fr.run([(cfg.entry.id, {isf: True})], stop=adds)
+  bad = [f for r in rec for f in seen.get(r, []) if not any(f.get(k) is True for k in known)]
+  ok = not bad
+  run.ob(R4, fn.qualname, "dep_graph.add_edge(...) precedes self._recompute(node, row_ids)",
+         "a read aborted by OrderError -- or refused for good by the cycle detector -- has already "
+         "left its dependency edge, so the reading cell is invalidated when the node changes", ok,
+         fi=fn.fi, witness=None if ok else "while a formula node is being computed, _recompute is "
+         "reachable before the edge was recorded")
 
 
 EN = "sandbox/grist/engine.py"
@@ -421,6 +509,14 @@ VARIANTS = [
     with self._timing.measure(col.node):
       try:
         if not col.is_formula():""", "C18-R2"),
+  ("edge-recorded-after-read", EN,
+   """    if self._is_current_node_formula:
+      # Add an edge to indicate that the node being computed depends on the node passed in.""",
+   """    if self.recompute_map.get(node) is not None:
+      self._recompute(node, row_ids)
+    if self._is_current_node_formula:
+      # Add an edge to indicate that the node being computed depends on the node passed in.""",
+   "C18-R4"),
   ("circular-error-wrapped", "sandbox/grist/column.py",
    """        raise raw.error
 """,
